@@ -1207,7 +1207,19 @@ class ClientObservation:
         async def __anext__(self):
             f = self._future
             try:
-                result = await self._future
+                try:
+                    result = await f
+                except asyncio.CancelledError:
+                    if f.cancelled() and f is self._future:
+                        # Only the waiting was cancelled (as asyncio.wait_for
+                        # does on a time-out), not the observation: later
+                        # items need a fresh future to be pushed into, so
+                        # that the iterator stays usable.
+                        self._future = asyncio.get_running_loop().create_future()
+                        if self._pending_error is not None:
+                            self._future.set_exception(self._pending_error)
+                            self._pending_error = None
+                    raise
                 # FIXME see `await servobs._trigger` comment: might waiting for
                 # the original future not yield the first future's result when
                 # a quick second future comes in in a push?
